@@ -123,6 +123,7 @@ class C09(Check):
             op = shape["first"] if i == 0 else eng.choice(f"op{i}", len(OPS))
             name = OPS[op]
             tag = f"step {i} {name}"
+            eng.step(name)
             if name == "next":
                 do_next(tag)
             elif name in ("seek_start", "seek_current"):
@@ -224,6 +225,7 @@ class C09(Check):
         passes = 2
         for i in range(shape["steps"]):
             op = eng.choice(f"op{i}", 3)
+            eng.step(("next", "resize", "seek")[op])
             if op == 0:
                 try:
                     fr = next(it)
